@@ -46,6 +46,25 @@ theorem mkFromUntil_WF (a b : V) (r : Range V) (h : mkFromUntil a b = some r) : 
   obtain ⟨h1, rfl⟩ := (mkFromUntil_some_iff a b r).1 h
   exact h1
 
+/-! ### Adjacent ranges (an endpoint replaced at version `b`) -/
+
+/-- **Adjacent ranges.**  `until b` and `from b` split the versions between them: every
+version belongs to exactly one, whichever was declared first. -/
+theorem until_from_partition (b v : V) : Mem v (.until b) ↔ ¬ Mem v (.from b) := by
+  simp [Mem]
+
+/-- … and they never conflict, in either registration order. -/
+theorem until_from_compatible (b : V) :
+    overlaps (.until b) (.from b) = false ∧ overlaps (.from b) (.until b) = false := by
+  simp [overlaps, Range.matches]
+
+/-- The same for a bounded range followed by an open one: `from a until b` and `from b`
+(with `a < b`) share no version and are accepted together. -/
+theorem fromUntil_from_compatible (a b : V) (h : a < b) :
+    overlaps (.fromUntil a b) (.from b) = false ∧ overlaps (.from b) (.fromUntil a b) = false ∧
+      ∀ v, ¬ (Mem v (.fromUntil a b) ∧ Mem v (.from b)) := by
+  refine ⟨?_, ?_, ?_⟩ <;> simp [overlaps, Range.matches, Mem] <;> grind
+
 /-! ### Conflict ⇔ a shared version -/
 
 theorem overlaps_comm (r s : Range V) : overlaps r s = overlaps s r := by
